@@ -420,6 +420,10 @@ func (p *Program) sortOf1(t types.Type) Sort {
 		if name == "" {
 			name = "anon" + sanitize(t.String())
 		}
+		if n, ok := t.(*types.Named); ok && n.Obj().Pkg() != nil && n.Obj().Pkg() != p.Pkg.Types {
+			// foreign struct types (bytes.Buffer, strings.Builder, ...) are opaque
+			return p.U.Opaque("Ext_" + sanitize(n.Obj().Pkg().Name()+"_"+name))
+		}
 		return p.U.StructOf(name, ut, p.sortOf)
 	case *types.Pointer:
 		return p.U.PtrOf(p.sortOf(ut.Elem()))
